@@ -81,11 +81,24 @@ def cmd_check(args):
         return mod.run(pid, tier, seed, work, viol_dir)
 
     # ---- build ----------------------------------------------------------------------------------
-    engines = sorted(set(j["engine"] for j in spec["jobs"]))
+    engines = []
+    for j in spec["jobs"]:
+        if j["engine"] not in engines:
+            engines.append(j["engine"])
     bins = {}
+    build_violations = []
     for e in engines:
         ok, path, log = BUILD.ensure(e, REPO)
         if not ok:
+            # an engine whose only difference from an already built control engine is the instantiation the property is about
+            # (e.g. move-only value types): "does not compile while the control compiles" is the property failing, not the harness
+            ctl = spec.get("build_failure_is_violation", {}).get(e)
+            if ctl and ctl in bins:
+                os.makedirs(viol_dir, exist_ok=True)
+                lp = os.path.join(viol_dir, "%s_build_%s.log" % (pid, e))
+                open(lp, "w").write(log)
+                build_violations.append((e, lp, [l for l in log.splitlines() if "error:" in l][:1]))
+                continue
             print("HARNESS-BUILD-FAILED engine=%s" % e)
             print(log[-6000:])
             return 2
@@ -183,6 +196,8 @@ def cmd_check(args):
     # ---- search tier --------------------------------------------------------------------------------
     jobs = []
     for ji, j in enumerate(spec["jobs"]):
+        if j["engine"] not in bins:
+            continue
         cfg = j[tier]
         nw = cfg.get("workers", NCPU)
         for w in range(nw):
@@ -262,6 +277,11 @@ def cmd_check(args):
     for n in notes + inconclusive:
         print("NOTE:", n)
     seen = set()
+    for e, lp, errs in build_violations:
+        print("VIOLATION property=%s replay=%s" % (pid, lp))
+        print("  what: %s does not compile although the control engine does: %s" % (spec["build_failure_is_violation_text"], (errs[0].strip()[:300] if errs else "")))
+        status = 1
+        seen.add(lp)
     for what, path, tail in violations:
         if path in seen:
             continue
